@@ -8,13 +8,18 @@ MEASURES = [shapes.f2b(5.0), shapes.NO_DATA, shapes.NO_DATA + 1, shapes.NO_DATA 
             shapes.INF, shapes.NINF, 0, shapes.F_MIN]
 
 
-def gcoord(rng):
-    return [shapes.f2b(float(rng.randint(-9, 9))), shapes.f2b(float(rng.randint(-9, 9)))]
+def gcoord(rng, nan=True):
+    c = [shapes.f2b(float(rng.randint(-9, 9))), shapes.f2b(float(rng.randint(-9, 9)))]
+    if rng.random() < 0.08:
+        # non-finite and extreme ordinates are ordinary f64 values for a conversion (NaN only where no ring is closed by
+        # comparing coordinates)
+        c[rng.randrange(2)] = rng.choice([shapes.INF, shapes.NINF, shapes.F_MAX, shapes.f2b(1e300), 1] + ([shapes.NANS[0]] if nan else []))
+    return c
 
 
 def gring(rng, n=None, closed=None):
     n = rng.randint(3, 5) if n is None else n
-    pts = [gcoord(rng) for _ in range(n)]
+    pts = [gcoord(rng, nan=closed is False) for _ in range(n)]
     if (rng.random() < 0.5 if closed is None else closed) and pts:
         pts.append(list(pts[0]))
     return pts
@@ -313,6 +318,12 @@ def run(rep, tier, rng):
                     if cur.next() != fields[i]:
                         msg = "index %d does not return the matching field" % i
                         break
+                rest = list(cur.v[cur.i:])
+                if not msg and rest:
+                    views = {1: "the value", 2: "a reference", 3: "PointTrait::coord of the value", 4: "PointTrait::coord of a reference", 5: "PointTrait::dim"}
+                    what = {-1: "reports another dimension count", -2: "x / y / x_y disagree", -3: "panics", -4: "has no coordinate"}
+                    msg = ("geo-traits view through %s: %s" % (views.get(rest[1], rest[1]), what.get(rest[2], "index %d read through nth / nth_unchecked "
+                           "does not return what nth_or_panic of the value returns" % rest[2]))) if rest[0] == -9 and len(rest) >= 3 else "unexpected output %r" % rest[:6]
         if msg:
             nfail += 1
             if nfail == 1:
